@@ -139,6 +139,22 @@ func (o *OLVM) accessListFailure(c *Ctx, a, b *world.Account) []hist.TxSpec {
 	return []hist.TxSpec{sp, good}
 }
 
+// failedSandwich: an OLVM transaction that the state transition refuses (nonce ahead of the account's: the
+// mempool check admits it), native transfers changing the same account's balance, then a good OLVM
+// transaction of that account — all in one block.
+func (o *OLVM) failedSandwich(c *Ctx, a, b *world.Account) []hist.TxSpec {
+	to := ethcmn.BytesToAddress(b.Addr)
+	key := c.W.EthKeys[a.Addr.String()]
+	n := o.nonce[a.Addr.String()]
+	bz := OLVMTx(c, a, key, n+3, &to, big.NewInt(11), nil, 21000, "1000000000", ChainIDOf(c.W), fmt.Sprint(n+3))
+	bad := hist.TxSpec{Kind: "OLVM", Bytes: bz, Note: "nonce ahead by three (refused by the state transition)", Signers: []string{a.Addr.String()}}
+	bad.Meta = map[string]string{"from": a.Addr.String(), "nonce": fmt.Sprint(n + 3), "value": "11", "to": keys.Address(to.Bytes()).String(), "data": "", "expect": "fail"}
+	u := c.W.Users[0]
+	s1 := Build(c, "SEND", txb.Send(u.Addr, a.Addr, "OLT", "1000000000000000000000"), "native transfer to the account whose EVM transaction was just refused", u)
+	good := o.tx(c, a, &to, big.NewInt(4000+c.R.Int63n(1000)), nil, 21000, "plain transfer after a refused one and a native credit")
+	return []hist.TxSpec{bad, s1, good}
+}
+
 func word(b []byte) []byte {
 	out := make([]byte, 32)
 	copy(out[32-len(b):], b)
@@ -161,6 +177,9 @@ func (o *OLVM) Plan(c *Ctx) []hist.TxSpec {
 	if o.Mixed {
 		// only plain EVM transfers interleaved with native transfers touching the same accounts
 		a, b := es[pick(c.R, len(es))], es[pick(c.R, len(es))]
+		if c.R.Intn(3) == 0 {
+			return o.failedSandwich(c, a, b)
+		}
 		out = append(out, o.sandwich(c, a, b)...)
 		if c.R.Intn(2) == 0 {
 			out = append(out, o.sandwich(c, b, a)...)
@@ -184,6 +203,18 @@ func (o *OLVM) Plan(c *Ctx) []hist.TxSpec {
 		out = append(out, o.sandwich(c, es[0], es[1])...)
 	case 8, 16:
 		out = append(out, o.accessListFailure(c, es[0], es[1])...)
+	case 11, 19:
+		out = append(out, o.failedSandwich(c, es[0], es[1])...)
+	case 9, 17:
+		// fill a storage slot ...
+		if a, ok := o.contracts["store"]; ok {
+			out = append(out, o.tx(c, es[1], &a, big.NewInt(0), word([]byte{7}), 60000, "call store: set slot 0 to a non-zero value"))
+		}
+	case 10, 18:
+		// ... and clear it again: this call earns a gas refund
+		if a, ok := o.contracts["store"]; ok {
+			out = append(out, o.tx(c, es[1], &a, big.NewInt(0), word([]byte{0}), 60000, "call store: reset slot 0 to zero (earns a gas refund)"))
+		}
 	default:
 		k := 1
 		if !o.OneTx {
